@@ -22,8 +22,9 @@ def validate(wd, module, cfg_tmpl, consts, traces, timeout=900, tag="TRACE", hea
     tlc.need_ok_run(r, module + " trace validation")
     out = [None] * len(traces)
     for v in tlc.printed_values(r, tag):
-        _, tid, n, first, bad = v
-        out[tid - 1] = {"len": n, "firstBad": first, "bad": set(bad)}
+        _, tid, n, first = v
+        pos = {c: l for (c, l) in first}
+        out[tid - 1] = {"len": n, "firstBad": min(pos.values()) if pos else 0, "bad": set(pos), "at": pos}
     missing = [i for i, x in enumerate(out) if x is None]
     if missing:
         raise MachineryError("%s: no verdict for traces %s\n%s" % (module, missing[:5], r.out[-2000:]))
